@@ -1199,11 +1199,26 @@ func (env *Env) evalCall(x *ECall) SV {
 			specFail("held: argument is not a mutex")
 		}
 		return SV{v.V, tb}
+	case "fired":
+		// fired(once): the sync.Once has run its function
+		v := arg(0)
+		if v.V.Sort.Kind != KBool {
+			specFail("fired: argument is not a sync.Once")
+		}
+		return SV{v.V, tb}
+	case "closed":
+		// closed(ch): the channel has been closed
+		v := arg(0)
+		return SV{Select(vc.chanClosed(env.st), v.V, sortBool), tb}
 	case "clock":
 		return SV{env.st.clock, ti}
 	case "allocated":
 		// allocated(r): r was allocated before the state being evaluated
-		return SV{Bin(sortBool, "<=", arg(0).V, env.st.alloc), tb}
+		r := arg(0).V
+		if b, ok := vc.iptrBase[r.S]; ok {
+			r = b // a pointer into an object is as old as that object
+		}
+		return SV{Bin(sortBool, "<=", r, env.st.alloc), tb}
 	case "strbytes":
 		// strbytes(s): the bytes of a string as an array (what []byte(s) contains)
 		v := arg(0)
@@ -1419,6 +1434,9 @@ func (vc *VC) ghostVar(st *State, g *GhostDecl) *Term {
 	env := (&Env{vc: vc, st: st, nq: &vc.nq}).inPkg(g.Pkg)
 	_, s := env.resolveType(g.Type)
 	name := "G_" + g.Name + "_0"
+	if st.epoch != "" {
+		name = "G_" + g.Name + "_e" + st.epoch
+	}
 	vc.declare(name, s)
 	t := T(s, name)
 	st.ghosts[g.Name] = t
